@@ -311,6 +311,9 @@ func (t *largeHuffCodeTable) encodeLongCodes(ctx *dynamicHeaderReader, codeListL
 
 	var tempCodeList [1 << (maxLitLenCodeLen - litLenLookupBits)]uint16
 	longCodeLookupLength := uint32(0)
+	// entries of an earlier block must not answer for the bit patterns that an
+	// incomplete code leaves unassigned
+	t.longCodeLookup = [len(t.longCodeLookup)]uint16{}
 	for i := 0; i < int(longCodeLength); i++ {
 		if ctx.litAndDistHuff[longCodeList[i]].Code() == invalidCodeValue {
 			continue
